@@ -16,6 +16,11 @@ CHECKS = {
     text="243 transaction shapes, 81 block shapes, every script hash type x args size, every protocol union arm (27 messages) are pushed through: molecule strict/compatible decode and field-by-field rebuild; packed->JSON->text->JSON->packed and back; a field-by-field comparison of the JSON object with the packed fields it names (so a swap in both conversion directions is caught); hash laws under an 18-entry transaction mutation catalogue and a block mutation catalogue (tx hash ignores witnesses only, witness hash / transactions root / proposals hash / extra hash / block hash each change when they must, cached view hashes equal recomputation); and ~400k single-byte, header-word and truncation mutants of the encodings, where every mutant accepted by strict decoding must re-encode to itself.",
     note="Small-scope hypothesis: vectors longer than 2-3 elements and interactions of several mutated fields are not enumerated. Values embedding a block with an extension are only decodable in compatible mode (by design) and are exempt from the strict/rebuild identities.",
     design="DESIGN.md §5 C15"),
+ "C16": dict(engine="seq", category="exploration",
+    technique="exhaustive enumeration of short byte strings and of single-step mutants of every protocol message through the production decode boundary and a full accessor/verifier walk; exhaustive subsets of prefilled/available/supplied transactions and tamperings through the real Relayer::reconstruct_block",
+    text="All 65 793 byte strings of length <=2 and, for one seed message per union arm of the four protocols (incl. blocks / compact blocks carrying an extension), every truncation, single-byte substitution (7 values), aligned header-word replacement (7 values) and bit flip, raw and inside a compressed frame, are decoded the way the handlers do (compatible decoding + the handlers' malformed-message predicates, exposed by a hook) and every accessor, view conversion, hash, Display and context-free verifier is run under catch_unwind; decompress output is bounded. Reconstruction: the real Relayer on a real node+pool, for every prefilled subset (8) x pool subset (8) x supplied subset incl. a foreign tx (16) x tampering (6): the result must be the announced block (byte-identical, same hash), a precise missing list, a collision or an error.",
+    note="Byte strings further than one mutation from a seed are not enumerated; only compact blocks accepted by CompactBlockVerifier are reconstructed (production order); uncles supplied by peers are not varied.",
+    design="DESIGN.md §5 C16"),
  "C17": dict(engine="seq", category="model_checking",
     technique="explicit-state search over operation histories on the real structures (orphan pool to the fixpoint of reachable states; in-flight table with step-wise refinement checks on the dumped state; header map with real sled backend vs BTreeMap; skip-list ancestor lookup vs parent walk)",
     text="Orphan pool: for every labelled forest of 5 blocks over two absent roots, all sequences of insert / remove_blocks_by_parent(any node) / clean_expired are explored until no new state appears, each return value and the leader set compared with a plain-map model. In-flight table: all sequences (depth 5 quick / 6 thorough) over 3 peers x 4 blocks with a faked clock; every operation is checked as a relation between the dumped pre- and post-state, and the statement's invariants on every state. Header map: every sequence of length <=5/6 of insert/get/contains/remove over 4 keys plus spill (limit 2 items, real sled backend) against a BTreeMap. Ancestor: every (from,to) pair on chains of 300/1024 headers and from 40-block branches at fork points, with and without the main-chain shortcut, against a parent walk.",
